@@ -164,6 +164,15 @@ def once(rc):
         rc.ob(f"{q} -> to_markov_model().to_junction_tree()")
 
 
+def _names_from_model(j, sn):
+    """the state_names expression reads the model's states (self.states / a local bound to it) or a source factor's state_names"""
+    t = norm(sn, 400)
+    if "self.states" in t or ".state_names" in t:
+        return True
+    locs = {b["_S"] for pat in ("_S = self.states", "_S = dict(self.states)", "_S = self.states.copy()") for _, b in tm.find_all(j.node, pat)}
+    return any(isinstance(x, ast.Name) and x.id in locs for x in ast.walk(sn))
+
+
 @rule("C14.statenames", "clique potentials carry the model's state names", floor=1)
 def statenames(rc):
     repo = rc.repo
@@ -177,7 +186,7 @@ def statenames(rc):
         if sn is None:
             rc.fail(j, c, "the unit clique potential is created without state names: after multiplication the result's names depend on operand order, and evidence given by "
                     "state name can fail on the clique tree", construct="clique potential without state_names")
-        elif "states" not in norm(sn) and "state_names" not in norm(sn):
+        elif not _names_from_model(j, sn):
             rc.fail(j, c, "the clique potential's state names are not the model's", construct="clique potential foreign state_names")
         if "np.ones(" not in norm(c) and "ones(" not in norm(c):
             rc.fail(j, c, "the initial clique potential must be the unit factor", construct="unit potential")
